@@ -7,7 +7,7 @@ the run; a request that is not answered within `ANSWER_CAP` seconds is reported 
 Each case runs in a fresh interpreter in its own session; the whole process group is killed afterwards.
 
 This file is the scenario module (parent side, no scheduler) *and* the child program
-(`python scen_batch_proc.py` reads the case as JSON on stdin, prints the result as JSON).
+(`python scen_batch_proc.py <result file>`, case as JSON in the environment variable C09_CASE).
 """
 import json
 import os
@@ -31,7 +31,7 @@ def gen_case(rng: random.Random, tier: str, bias: str = ''):
     arr = []
     for _ in range(n):
         kind = 'g' if (rng.random() < 0.85 or not pre) else 'r'
-        arr.append([rng.choice([0, 0, 0, 1, 2, wait, wait + 2]), kind])
+        arr.append([rng.choice([0, 0, 0, 0, 0, 1, 2, wait + 2]), kind])
     # a lone request at the end, long after everything else: must not wait for a batch to fill
     arr.append([25 + 2 * wait, 'g'])
     fail = sorted(rng.sample(range(n), k=rng.choice([0, 0, 1, 2]))) if n >= 2 else []
@@ -53,14 +53,18 @@ def run_case(case):
     repo = os.environ.get('VERIF_REPO', '/repo')
     env['PYTHONPATH'] = os.pathsep.join([os.path.join(repo, 'src'), os.path.dirname(os.path.abspath(__file__))])
     t0 = time.time()
-    p = subprocess.Popen([sys.executable, os.path.abspath(__file__)], stdin=subprocess.PIPE, stdout=subprocess.PIPE,
-                         stderr=subprocess.DEVNULL, env=env, start_new_session=True, text=True)
+    import tempfile
+    fd, path = tempfile.mkstemp(prefix='c09proc_', suffix='.json')
+    os.close(fd)
+    # no pipes to the child: the worker processes it spawns would keep them open after it has exited
+    p = subprocess.Popen([sys.executable, os.path.abspath(__file__), path], stdin=subprocess.DEVNULL,
+                         stdout=subprocess.DEVNULL, stderr=subprocess.DEVNULL, env=dict(env, C09_CASE=json.dumps(case)),
+                         start_new_session=True)
     try:
-        out, _ = p.communicate(json.dumps(case), timeout=CASE_CAP)
+        p.wait(CASE_CAP)
         timed_out = False
     except subprocess.TimeoutExpired:
         timed_out = True
-        out = ''
     finally:
         try:
             os.killpg(p.pid, signal.SIGKILL)
@@ -71,6 +75,13 @@ def run_case(case):
         except Exception:
             pass
     wall = time.time() - t0
+    try:
+        out = open(path).read()
+    finally:
+        try:
+            os.unlink(path)
+        except Exception:
+            pass
     if timed_out:
         # the harness' own cap: not a verdict (the answers themselves are capped by ANSWER_CAP inside the child)
         return dict(infra_error=f'process case did not finish within {CASE_CAP}s', monitors=[], events=[])
@@ -147,7 +158,7 @@ def _child_main():
     import threading
     from mpservice.mpserver import ProcessServlet, Server, Worker
 
-    case = json.loads(sys.stdin.read())
+    case = json.loads(os.environ['C09_CASE'])
 
     outcomes = {}
     k, b, wait = case['k'], case['b'], case['wait']
@@ -179,7 +190,8 @@ def _child_main():
             th.join()
         batches = sorted({(tuple(o[1]), tuple(o[2])) for o in outcomes.values() if o[0] in ('val', 'callerr')})
         # report before leaving the server: its exit path is not this property's subject
-        print('RESULT ' + json.dumps(dict(outcomes=outcomes, batches=batches)), flush=True)
+        with open(sys.argv[1], 'w') as f:
+            f.write('RESULT ' + json.dumps(dict(outcomes=outcomes, batches=batches)) + '\n')
         os._exit(0)
 
 
